@@ -15,6 +15,9 @@ import (
 	"strconv"
 	"strings"
 	"time"
+
+	gtfsrt "github.com/jamespfennell/gtfs/proto"
+	"google.golang.org/protobuf/proto"
 )
 
 type replayFile struct {
@@ -177,6 +180,23 @@ func Or(xs ...bool) bool {
 	return false
 }
 func Implies(a, b bool) bool { return !a || b }
+
+func Marshal(m *gtfsrt.FeedMessage) []byte {
+	b, err := proto.MarshalOptions{AllowPartial: true}.Marshal(m)
+	if err != nil {
+		panic("vr.Marshal: " + err.Error())
+	}
+	return b
+}
+
+func BadBytes() []byte { return []byte{0xff, 0xff, 0xff, 0x07} }
+
+func Ite[X any](c bool, a, b X) X {
+	if c {
+		return a
+	}
+	return b
+}
 
 func P[X any](v X) *X { return &v }
 
